@@ -66,6 +66,34 @@ def normalise(result, py=False):
     return rows, problems
 
 
+def abort_fetch(w, table, entry, variant, bulk, n):
+    """The transport times out on request n+1 of a table fetch (nothing is judged)."""
+    w.seam.reset(budget=60)
+    inner = w.seam.responder
+    count = {"n": 0}
+
+    def lossy(data):
+        count["n"] += 1
+        return None if count["n"] > n else inner(data)
+
+    w.seam.responder = lossy
+    try:
+        try:
+            if variant == "table":
+                drive(w.client.table(OID(entry)))
+            elif variant == "bulktable":
+                drive(w.client.bulktable(OID(table), bulk_size=bulk))
+            elif variant == "pytable":
+                drive(w.py.table(oid_s(entry)))
+            else:
+                drive(w.py.bulktable(oid_s(table), bulk_size=bulk))
+        except Exception:  # noqa: BLE001 - the Timeout IS the abort
+            pass
+    finally:
+        w.seam.responder = inner
+        w.seam.reset()
+
+
 def run_one(R, level, table, entry, cells, db, variant, bulk, label, w=None):
     if w is None:
         w = World(level, db)
@@ -156,6 +184,12 @@ def run(R):
             # one client, several fetches in a row (incl. the same fetch twice)
             w = World(level, db)
             for variant, bulk in (("table", None), ("table", None), ("bulktable", BULKS[i % 4]), ("pytable", None), ("table", None), ("pybulktable", BULKS[(i + 1) % 4])):
+                run_one(R, level, table, entry, cells, db, variant, bulk, "reuse", w=w)
+            # a fetch that dies part-way (transport timeout on request n), then the
+            # same fetch again on the same client: complete and exact
+            for variant, bulk, n in (("table", None, 2), ("bulktable", 1, 2), ("pytable", None, 1), ("pybulktable", 3, 1)):
+                abort_fetch(w, table, entry, variant, bulk, n)
+                R.mon["fetches_aborted_midway"] += 1
                 run_one(R, level, table, entry, cells, db, variant, bulk, "reuse", w=w)
     if R.shard == 0:
         # v1 speaks GETNEXT only: table() must work there too
